@@ -189,6 +189,35 @@ func runC15(c c15Case, st *stack.Stack, stream []byte, baseL1, baseL2, baseG int
 			return fmt.Sprintf("more than a minute after the client closed its connection at byte %d of the stream, still held: %s; goroutines:\n%s", c.Prefix, held2, dump[:n])
 		}
 	}
+	// Two fresh clients whose requests interleave: X's request header arrives in
+	// its own segment, Y's complete request is served meanwhile, then the rest of
+	// X's request.  Whatever the vanished client left behind (e.g. in shared
+	// object pools) must not leak into either of them.
+	{
+		x := wire.NewClient(st.Dial(c.Port), true)
+		y := wire.NewClient(st.Dial(c.Port), true)
+		x.Timeout, y.Timeout = hangBound(), hangBound()
+		xv := mkValue(uint32(c.Prefix)+77, 33)
+		enc := wire.EncodeBinary(wire.Cmd{Kind: wire.Set, Key: "kx", Value: xv, Flags: 9, Opaque: 0xA1A1A1A1})
+		x.C.Write(enc[:24])
+		time.Sleep(150 * time.Microsecond)
+		oy, ey := y.Do(wire.Cmd{Kind: wire.Get, Keys: []string{"kn-absent"}, Opaque: 0xB2B2B2B0})
+		x.C.Write(enc[24:])
+		x.C.SetReadDeadline(time.Now().Add(hangBound()))
+		rx, ex := wire.ReadBinReply(x.R)
+		ox, egx := x.Do(wire.Cmd{Kind: wire.Get, Keys: []string{"kx"}})
+		x.Close()
+		y.Close()
+		if ey != nil || oy.Class != wire.OK || len(oy.Hits) != 0 || len(oy.Problems) > 0 {
+			return fmt.Sprintf("after the disconnect at byte %d, a fresh client's get (interleaved with another client's request) was answered %v %s", c.Prefix, ey, oy)
+		}
+		if ex != nil || rx.Opaque != 0xA1A1A1A1 || rx.Status != 0 {
+			return fmt.Sprintf("after the disconnect at byte %d, a fresh client's set (opaque 0xa1a1a1a1, header and body in separate segments, another client served in between) was answered %v %s", c.Prefix, ex, rx)
+		}
+		if egx != nil || len(ox.Hits) != 1 || string(ox.Hits[0].Value) != string(xv) || ox.Hits[0].Flags != 9 {
+			return fmt.Sprintf("after the disconnect at byte %d, the value stored by the interleaved set reads back as %v %s", c.Prefix, egx, ox)
+		}
+	}
 	// a fresh client operates on the same keys: no stuck lock, served per model
 	cl := wire.NewClient(st.Dial(c.Port), true)
 	cl.Timeout = hangBound()
